@@ -362,3 +362,32 @@ Fixpoint eval_gen (e : sx) : res val :=
                       | a :: rest => fold_left (fun acc x => bind acc (fun v => g_iop OAdd v x)) rest (Ok a)
                       end)
   end.
+
+(* ---------- QuadraticModel.from_bqm as read from the source (gen_from_bqm) ---------- *)
+Definition fb_eqb (a b : fb_step) : bool :=
+  match a, b with
+  | FbOffset, FbOffset | FbVartypeOfBqm, FbVartypeOfBqm | FbAddVariable, FbAddVariable
+  | FbLinear, FbLinear | FbLabels, FbLabels | FbQuadratic, FbQuadratic => true
+  | _, _ => false
+  end.
+
+Definition fb_has (s : fb_step) : bool := existsb (fb_eqb s) gen_from_bqm.
+
+(* C++ add_variable(vartype) without bounds gives the vartype's own domain; a BQM is BINARY or SPIN *)
+Definition default_lb (v : vartype) : Qc := match v with SPIN => - (1) | _ => 0 end.
+Definition default_ub (v : vartype) : Qc := match v with BINARY | SPIN => 1 | _ => 0 end.
+
+(* the QM the constructor builds from a BQM: one variable of the BQM's vartype per variable of the BQM, under
+   the BQM's labels (index and label go together: the polynomial of the model is keyed by label), and those of
+   offset, linear and quadratic biases that the constructor copies *)
+Definition from_bqm_gen (m : mdl) : mdl :=
+  match m_cls m with
+  | CBqm v =>
+      mkM CQm
+        (if fb_has FbVartypeOfBqm && fb_has FbAddVariable && fb_has FbLabels
+         then map (fun e => (fst e, mkVI v (default_lb v) (default_ub v))) (m_tab m) else [])
+        (mkPoly (if fb_has FbOffset then p_off (m_poly m) else 0)
+                (if fb_has FbLinear then p_lin (m_poly m) else [])
+                (if fb_has FbQuadratic then p_quad (m_poly m) else []))
+  | CQm => m
+  end.
